@@ -13,12 +13,6 @@ deliberately not inspected — C04).  Each region has a negation witness below.
 -/
 namespace PedVerif.Checker
 
-/-- semantic guard for top-level string annotations: a matching (base-)class name identifies the class the context
-    binds to that name.  Its complement is the region `strAnnNameCollision`. -/
-def StrAnnGuard (env : Env) : Prop :=
-  ∀ (t : ClsId) (n : NameId), (env.name t = n ∨ env.baseName t = some n) →
-    ∃ c, env.ctx n = some c ∧ env.sub t c = true
-
 /-- the property as stated (false for the current code, see the witnesses) -/
 def Sound_full : Prop :=
   ∀ (env : Env) (orc : Nat → Val → Raw) (a : Ann) (v : Val), WfEnv env → a.noSpecial = true → v.wf env = true →
@@ -27,30 +21,8 @@ def Sound_full : Prop :=
 /-- **C01.** Whatever the checker accepts conforms. -/
 theorem sound_partial (env : Env) (orc : Nat → Val → Raw) (hw : WfEnv env) (hs : StrAnnGuard env)
     (a : Ann) (v : Val) (hns : a.noSpecial = true) (hwf : v.wf env = true) (hp : v.plain = true) :
-    checkType env orc a v = .accept → conforms env a v = true := by
-  intro h
-  cases a
-  case none => simp_all [checkType, conforms]
-  case strAnn n =>
-    simp only [checkType] at h
-    simp only [conforms]
-    split at h
-    · rename_i hb
-      simp only [cfg_strGuard, ↓reduceIte] at h
-      split at h <;> simp at h
-      rename_i hname
-      obtain ⟨c, hc, hsub⟩ := hs _ _ (Or.inl (by simpa using hname))
-      simp [hc, hsub]
-    · rename_i bn hb
-      split at h <;> simp at h
-      rename_i hname
-      have : env.name (v.typeOf env) = n ∨ env.baseName (v.typeOf env) = some n := by
-        simp at hname; rcases hname with h1 | h1
-        · exact Or.inl h1
-        · exact Or.inr (by rw [hb, h1])
-      obtain ⟨c, hc, hsub⟩ := hs _ _ this
-      simp [hc, hsub]
-  all_goals (simp only [checkType, wrap_accept] at h; exact (sound_raw env orc hw).1 _ _ v hns hwf hp h)
+    checkType env orc a v = .accept → conforms env a v = true :=
+  sound_checkType env orc hw hs a v hns hwf hp
 
 /-- contrapositive, as the property phrases it: a value that does not conform - in particular a conforming value
     corrupted at one arbitrarily deep position in a way that breaks conformance - is not accepted -/
